@@ -115,6 +115,35 @@ pub fn up(kind: &str, alpha: i16, beta: i16, depth: u8, score: i16, ply: u8) {
     ));
 }
 
+/// The transposition-table entry an inner node is about to consult (read here, independently of the
+/// search's own lookup) together with the node's remaining depth and window. Returns whether an event
+/// was recorded, so that `probed` is only reported for such nodes.
+pub fn probe(key: crate::board::zkey::ZKey, depth: u8, alpha: i16, beta: i16, ply: u8) -> bool {
+    if !STEPS.load(Ordering::Relaxed) || !recording() {
+        return false;
+    }
+    let Some(entry) = TRANSPOSITION_TABLE.read().unwrap().get(&key).copied() else {
+        return false;
+    };
+    let bound = match entry.bound {
+        crate::board::transposition_table::Bounds::Exact => "E",
+        crate::board::transposition_table::Bounds::Lower => "L",
+        crate::board::transposition_table::Bounds::Upper => "U",
+    };
+    emit(format!(
+        "{{\"ev\":\"probe\",\"edepth\":{},\"escore\":{},\"ebound\":\"{bound}\",\"depth\":{depth},\"alpha\":{alpha},\"beta\":{beta},\"ply\":{ply}}}",
+        entry.depth, entry.score
+    ));
+    true
+}
+
+/// The node went on after consulting the entry reported by `probe`, with this window.
+pub fn probed(alpha: i16, beta: i16, ply: u8) {
+    emit(format!(
+        "{{\"ev\":\"probed\",\"alpha\":{alpha},\"beta\":{beta},\"ply\":{ply}}}"
+    ));
+}
+
 /// Installs an observer that is shown the session board after each UCI command.
 pub fn set_observer(f: BoardObserver) {
     *OBSERVER.lock().unwrap() = Some(f);
